@@ -93,3 +93,81 @@ def mutated_cases(case_files, count, seed, area="mut"):
                   desc=dict(area=area, base=c["id"], seed=seed, n=len(out)))
         out.append(nc)
     return out
+
+
+def mutate_header(mem, rng):
+    """Header images: enumerated fields (architecture, tag type, flags, console flags, relocation preference) must keep
+    defined values (precondition of C09), so only sizes, the length word, types within 0..10 and plain payload words move."""
+    m = list(mem)
+    n = len(m)
+    def tags():
+        off, hs = 16, []
+        while off + 8 <= n:
+            sz = m[off + 4] | m[off + 5] << 8 | m[off + 6] << 16 | m[off + 7] << 24
+            hs.append(off)
+            if sz < 8 or off + ((sz + 7) & ~7) > n:
+                break
+            off += (sz + 7) & ~7
+        return hs
+    for _ in range(rng.choice([1, 1, 2, 3])):
+        kind = rng.choice(["size", "size", "length", "type", "word"])
+        hs = tags()
+        if kind == "size" and hs:
+            o = rng.choice(hs)
+            sz = m[o + 4] | m[o + 5] << 8 | m[o + 6] << 16 | m[o + 7] << 24
+            v = rng.choice([max(0, sz + d) for d in (-9, -8, -7, -4, -1, 1, 4, 7, 8, 9, 16)] + NASTY)
+            m[o + 4:o + 8] = le32(v & 0xFFFFFFFF)
+        elif kind == "length":
+            t = rng.choice([x for x in (n, n - 8, n - 16, n - 4, n - 1, 16, 24, 8, 0, 15) if 0 <= x <= n])
+            m[8:12] = le32(t)
+        elif kind == "type" and hs:
+            o = rng.choice(hs)
+            t = rng.randrange(0, 11)
+            m[o:o + 2] = [t, 0]
+            m[o + 2:o + 4] = [rng.randrange(2), 0]
+        elif kind == "word" and hs:
+            o = rng.choice(hs)
+            typ = m[o]
+            sz = m[o + 4] | m[o + 5] << 8 | m[o + 6] << 16 | m[o + 7] << 24
+            if sz >= 12 and o + 12 <= n and typ not in (4,):
+                w = o + 8 + 4 * rng.randrange(0, max(1, min((sz - 8) // 4, 3)))
+                if w + 4 <= n and not (typ == 10 and w == o + 20):
+                    m[w:w + 4] = le32(rng.choice(NASTY + [rng.randrange(1 << 32)]))
+    # keep enumerated payload fields of console (4) and relocatable (10) tags defined
+    for o in tags():
+        if m[o] == 4 and o + 12 <= n:
+            m[o + 8:o + 12] = le32(m[o + 8] % 2)
+        if m[o] == 10 and o + 24 <= n:
+            m[o + 20:o + 24] = le32(m[o + 20] % 3)
+    ln = m[8] | m[9] << 8 | m[10] << 16 | m[11] << 24
+    if ln > n:
+        ln = n
+        m[8:12] = le32(ln)
+    if rng.random() < 0.85:      # mostly keep the header loadable: fix the checksum
+        magic = m[0] | m[1] << 8 | m[2] << 16 | m[3] << 24
+        arch = m[4] | m[5] << 8 | m[6] << 16 | m[7] << 24
+        m[12:16] = le32((-(magic + arch + ln)) & 0xFFFFFFFF)
+    return m
+
+
+HGENERIC = [{"op": "htags", "it": 90}] + [{"op": "next", "it": 90}] * 6 + [{"op": "hdbg", "what": "hdr"}] + \
+           [{"op": "hget", "kind": k} for k in ("info_req", "address", "entry", "console", "hfb", "module_align", "hefi_bs", "entry_efi32", "entry_efi64", "relocatable")] + \
+           [{"op": "hfield", "kind": "info_req", "f": "requests"}, {"op": "hfield", "kind": "relocatable", "f": "preference"},
+            {"op": "hdbg", "what": "info_req"}, {"op": "hdbg", "what": "relocatable"}]
+
+
+def mutated_header_cases(case_files, count, seed, area="hmut"):
+    rng = random.Random(seed)
+    base = []
+    for f in case_files:
+        for line in open(f):
+            c = json.loads(line)
+            if isinstance(c.get("mem"), list) and len(c["mem"]) >= 24 and c["calls"] and c["calls"][0].get("op") == "hload" and not c["calls"][0].get("null"):
+                base.append(c)
+    out = []
+    while len(out) < count:
+        c = rng.choice(base)
+        m = mutate_header(c["mem"], rng)
+        out.append(dict(c, mem=m, calls=c["calls"] + HGENERIC, id="%s-%d-%d" % (area, seed, len(out)),
+                        desc=dict(area=area, base=c["id"], seed=seed, n=len(out))))
+    return out
